@@ -54,6 +54,12 @@ type thread struct {
 	pos        int
 	callFaults int
 	finished   bool
+	// cleanedSince (relaxed monitor only): a cleaner call of another thread
+	// was entered since this thread's last operation as a user.
+	cleanedSince bool
+	// coUser (relaxed monitor only): at some instant of the current outer
+	// call another thread may have been counted as a user.
+	coUser bool
 
 	ctx       context.Context
 	cancel    context.CancelFunc
@@ -93,6 +99,46 @@ type world struct {
 	// (they then execute atomically with the preceding step).
 	faultAt map[string]bool
 	quiet   map[string]bool
+
+	// relaxed: scenarios with YieldAfterUnlock. There a thread can be
+	// parked between the IdleInvoker's locked decision (use count
+	// incremented / decremented) and the instant the monitor learns about
+	// it (first fake operation / return of the outer call), so the
+	// monitor's own use count is no longer updated in the same atomic step
+	// as the decision. The monitor then only asserts what holds under
+	// EVERY placement of the decisions inside their calls: see
+	// possiblyCounted / definitelyUsing.
+	relaxed bool
+}
+
+// possiblyCounted: thread o may currently be counted as a user by the code
+// under test (it is inside an acquisition that has not failed its cleaning,
+// holds, or is inside a release that has not yet done the busy->idle
+// cleaning).
+func (w *world) possiblyCounted(o *thread) bool {
+	return !o.finished && o.call != "" && !o.post && o.pre != 2
+}
+
+func (w *world) othersPossiblyCounted(t *thread) bool {
+	for _, n := range w.order {
+		if o := w.threads[n]; o != t && w.possiblyCounted(o) {
+			return true
+		}
+	}
+	return false
+}
+
+// definitelyUsing lists the threads other than t whose action is running
+// whatever the placement of the decisions: those between a successful
+// acquisition and the beginning of their release.
+func (w *world) definitelyUsing(t *thread) []string {
+	var l []string
+	for _, n := range w.order {
+		if o := w.threads[n]; o != t && o.call == "hold" {
+			l = append(l, n)
+		}
+	}
+	return l
 }
 
 func newWorld(x *mc.X, maxFaults, maxCancels int, faultAt, quiet []string) *world {
@@ -218,6 +264,16 @@ func (w *world) beginCall(t *thread, call string) {
 	defer w.mu.Unlock()
 	t.call = call
 	t.callFaults = 0
+	if w.relaxed {
+		t.coUser = w.othersPossiblyCounted(t)
+		if call == "acquire" {
+			for _, n := range w.order {
+				if o := w.threads[n]; o != t && (o.call == "acquire" || o.call == "close") {
+					o.coUser = true
+				}
+			}
+		}
+	}
 	if call == "acquire" {
 		t.pre, t.post, t.created, t.dir = 0, false, "", nil
 	}
@@ -236,7 +292,11 @@ func (w *world) cleanerEnter(t *thread) {
 		// transition, i.e. it must be the last user.
 		delete(w.holders, t.name)
 		t.post = true
-		if len(w.holders) > 0 {
+		if w.relaxed {
+			if l := w.definitelyUsing(t); len(l) > 0 {
+				w.fail("overlap/cleaner-action", "cleaner entered by releasing %s while actions of %v are still running (not a busy->idle transition)", t.name, l)
+			}
+		} else if len(w.holders) > 0 {
 			w.fail("overlap/cleaner-action", "cleaner entered by releasing %s while actions of %v are still running (not a busy->idle transition)", t.name, w.holderList())
 		}
 	} else {
@@ -245,8 +305,19 @@ func (w *world) cleanerEnter(t *thread) {
 			w.fail("spurious-clean", "cleaner entered by %s outside an idle<->busy transition (call=%q post=%v)", t.name, t.call, t.post)
 		case t.pre != 0:
 			w.fail("spurious-clean", "cleaner entered a second time by %s within one acquisition", t.name)
+		case w.relaxed:
+			if l := w.definitelyUsing(t); len(l) > 0 {
+				w.fail("overlap/cleaner-action", "cleaner entered by acquiring %s while actions of %v are running (not an idle->busy transition)", t.name, l)
+			}
 		case len(w.holders) > 0:
 			w.fail("overlap/cleaner-action", "cleaner entered by acquiring %s while actions of %v are running (not an idle->busy transition)", t.name, w.holderList())
+		}
+	}
+	if w.relaxed {
+		// Whoever is still a user in the monitor's eyes must not operate
+		// on the environment any more (checked at its next operation).
+		for h := range w.holders {
+			w.threads[h].cleanedSince = true
 		}
 	}
 	w.cleaning = t.name
@@ -277,6 +348,9 @@ func (w *world) use(t *thread, what string) {
 		w.fail("overlap/action-cleaner", "%s by %s while a cleaner call by %s is in progress", what, t.name, w.cleaning)
 	}
 	if w.holders[t.name] {
+		if t.cleanedSince {
+			w.fail("overlap/cleaner-action", "%s by %s: a cleaner call ran between two operations of this action", what, t.name)
+		}
 		return
 	}
 	if t.post {
@@ -287,13 +361,18 @@ func (w *world) use(t *thread, what string) {
 	case 2:
 		w.fail("start-after-failed-clean", "%s by %s although the cleaning before it failed", what, t.name)
 	case 0:
-		if len(w.holders) == 0 {
+		if w.relaxed {
+			if !t.coUser && !w.othersPossiblyCounted(t) {
+				w.fail("missing-clean/idle-to-busy", "%s by %s starts an action without a preceding cleaner call although no other thread can have been a user during its acquisition", what, t.name)
+			}
+		} else if len(w.holders) == 0 {
 			w.fail("missing-clean/idle-to-busy", "%s by %s starts an action on an idle->busy transition without a preceding cleaner call", what, t.name)
 		}
 	}
 	// (t.pre == 1: this thread cleaned successfully; anybody who became a
 	// user during that cleaning has already been reported as an overlap.)
 	w.holders[t.name] = true
+	t.cleanedSince = false
 }
 
 // endCall: an outer call of thread t returned. released tells whether the
@@ -311,7 +390,15 @@ func (w *world) endCall(t *thread, call string, ok, released bool) {
 	}
 	if released && w.holders[t.name] {
 		delete(w.holders, t.name)
-		if len(w.holders) == 0 {
+		if w.relaxed {
+			// The thread's decrement happened somewhere inside the call
+			// that just returned; it was the last user unless somebody
+			// else may (have) be(en) counted or a cleaner call was
+			// entered since its last operation.
+			if !t.cleanedSince && !t.coUser && !w.othersPossiblyCounted(t) {
+				w.fail("missing-clean/busy-to-idle", "%s of %s returned: busy->idle transition without a cleaner call (no other thread can be a user)", call, t.name)
+			}
+		} else if len(w.holders) == 0 {
 			w.fail("missing-clean/busy-to-idle", "%s of %s returned: busy->idle transition without a cleaner call", call, t.name)
 		}
 	}
@@ -610,7 +697,7 @@ func (w *world) key() string {
 			if t.dir != nil {
 				d = t.dir.name
 			}
-			fmt.Fprintf(&b, "%s:%d,%s,%d,%v,%s,%s,%v;", n, t.pos, t.call, t.pre, t.post, t.created, d, t.cancelled)
+			fmt.Fprintf(&b, "%s:%d,%s,%d,%v,%s,%s,%v,%v,%v;", n, t.pos, t.call, t.pre, t.post, t.created, d, t.cancelled, t.cleanedSince, t.coUser)
 		}
 	}
 	return b.String()
